@@ -151,7 +151,7 @@ def run_case(case):
             # recorded location = realpath(parent of link)/name
             tdir = w.abs(o['trash'])
             info = trashio.read_info(w.abs(o['info']))
-            vol = spec.volume_of(os.path.realpath(tdir), w.mounts)
+            vol, _given = c01.trash_dir_base(case, w, tdir)
             loc, pi = trashio.info_location(info, tdir, vol, None)
             want = spec.real_entry(link_abs)
             if loc != want:
